@@ -25,6 +25,9 @@ Aux0 == [hoard |-> 0, revived |-> FALSE, swS |-> FALSE, swR |-> FALSE]
 
 Max2(a, b) == IF a > b THEN a ELSE b
 Track == TLCSet(1, Max2(TLCGet(1), l))
+\* A state that breaks a Layer A invariant is not an explanation: it is pruned (and does not
+\* count as progress), so an invariant can only fail the validation by leaving no explanation.
+TrackOk == ChanInv /\ Track
 
 R == Rec[l]
 Is(k) == l <= N /\ R.k = k
@@ -227,6 +230,19 @@ Clone ==
   /\ UNCHANGED <<cfg, buf, disc, once, out, gone, pend, devs>>
   /\ Next1
 
+\* Known finding F24b (broadcast): cloning a receiver handle that was itself closed yields a
+\* live handle positioned at the closed handle's frozen cursor: it holds the sender back for
+\* good and never sees the values it was lapped by.  Nothing after that point in the history
+\* is judged (the rest of the history is skipped).
+NextNew(j) == IF \E i \in j+1..N : Rec[i].k = "new" THEN CHOOSE i \in j+1..N : Rec[i].k = "new" /\ \A m \in j+1..i-1 : Rec[m].k # "new" ELSE N + 1
+CloneZombie ==
+  /\ Is("clone") /\ Dev("F24b") /\ cfg.kind = "bc"
+  /\ R.h \in DOMAIN rx /\ rx[R.h] = "closed"
+  /\ PrintT(<<"DEV", "F24b">>)
+  /\ l' = NextNew(l)
+  /\ devs' = devs \cup {"F24b"}
+  /\ UNCHANGED <<chanVars, aux>>
+
 \* to_sync / to_async: the same handle in another flavour.
 Conv ==
   /\ Is("conv")
@@ -244,7 +260,8 @@ Conv ==
 \* ---- observers ------------------------------------------------------------
 Obs ==
   /\ Is("obs")
-  /\ (R.what = "len" /\ Bounded) => R.val <= cfg.cap                 \* C03
+  \* C03 (a handle that was itself closed is not constrained: its view is frozen)
+  /\ (R.what = "len" /\ Bounded /\ (R.h \in LiveS \/ R.h \in LiveR)) => R.val <= cfg.cap
   /\ (R.what = "len" /\ cfg.kind = "rv") => R.val = 0
   /\ UNCHANGED chanVars
   /\ Next1
@@ -347,7 +364,7 @@ LinStep ==
   /\ UNCHANGED l
 
 Next ==
-  \/ New \/ PollPending \/ Clone \/ Quiesce \/ Hung \/ End \/ StrayDrop
+  \/ New \/ PollPending \/ Clone \/ CloneZombie \/ Quiesce \/ Hung \/ End \/ StrayDrop
   \/ Wake \/ Cancel
   \/ (Call \/ Ret \/ Close \/ HDrop \/ Conv \/ Obs) /\ UNCHANGED <<devs, aux>>
   \/ LinStep
